@@ -51,6 +51,7 @@ func c01Rules(p *core.Prog, r *core.Run) {
 	recordLimit(p, r, m, "C01.recsize")
 	// application data flows: passthrough is direct and never bypasses buffered bytes
 	c05Direct(p, r, m, "C01.pipe")
+	c07Buffers(p, r, m, "C01.pipe.buffers")
 }
 
 // c01Accessors checks ServerName, ALPNProtos, ECHAccepted.
